@@ -14,6 +14,7 @@ from __future__ import annotations
 import ast
 import collections
 import re
+import zlib
 from fractions import Fraction
 
 from harness import common as C
@@ -22,7 +23,7 @@ from harness import pyast_wire as W
 
 META = {
     "id": "C03",
-    "technique": "Coq proof (soundness of a line-by-line model of _eval_const w.r.t. the reference Python semantics Lang/PySem.v by induction over expressions; closedness of name-free folds; a model of the constant environment with shared list objects across if / while / for, its staleness refuted by computed witnesses, and a simulation theorem - residual program with baked-in constants = source program on every control-flow path - inside a freshness guard, by induction over nested statement blocks; a second simulation for the module-level split between static global initialisers, which run before setup(), and run-time assignments: hoisting is invisible because only closed constant right-hand sides are hoisted, refuted for the variant without the name-free test; a wider flow guard: the transpiler model run in lockstep with a flow-sensitive ghost environment, simulation theorem for every program whose fold sites bake in exactly what the ghost justifies - sibling branches of if / elif / else start from the snapshot, never from an earlier sibling; function definitions: body parsed at the def with the formal arguments unknown, run at a later call, theorem for every argument value, def-time staleness refuted) + extracted-model correspondence with the real _eval_const/_expr_has_name/_to_c_expr/parse() + CPython and compiled-firmware oracles",
+    "technique": "Coq proof (soundness of a line-by-line model of _eval_const w.r.t. the reference Python semantics Lang/PySem.v by induction over expressions; closedness of name-free folds; a model of the constant environment with shared list objects across if / while / for, its staleness refuted by computed witnesses, and a simulation theorem - residual program with baked-in constants = source program on every control-flow path - inside a freshness guard, by induction over nested statement blocks; a second simulation for the module-level split between static global initialisers, which run before setup(), and run-time assignments: hoisting is invisible because only closed constant right-hand sides are hoisted, refuted for the variant without the name-free test; a wider flow guard: the transpiler model run in lockstep with a flow-sensitive ghost environment, simulation theorem for every program whose fold sites bake in exactly what the ghost justifies - sibling branches of if / elif / else start from the snapshot, never from an earlier sibling; function definitions: body parsed at the def with the formal arguments unknown, run at a later call, theorem for every argument value, def-time staleness refuted; tuple assignment as the transpiler emits it - every right-hand side into a temporary, then the targets - proved to be Python's simultaneous assignment for every environment, arity and overlap of targets and right-hand sides via a frame lemma for the reference evaluator, the target-by-target update refuted; parse-then-emit: IR nodes that bake a list hold list objects resolved only when the whole script is parsed - theorem: every flash_pattern node owns its object, so the emitted program is the snapshot residual for every script, the aliasing shortcut refuted) + extracted-model correspondence with the real _eval_const/_expr_has_name/_to_c_expr/parse() + CPython and compiled-firmware oracles",
     "level_text": "Theorems C03_* (coq/Props/C03.v) are proved for all expressions / environments about Gallina models of _eval_const, _expr_has_name, _literal_length, the folding call sites and the flow-insensitive constant environment (len(name), flash_pattern(name), lcd.glyph bitmaps; append / remove bookkeeping; dict copies sharing list objects) (operator and cast tables regenerated from parser.py on every run); soundness holds inside an explicit guard and is refuted outside it by computed witnesses that are replayed on the real transpiler (listed findings); the models are run against the real functions on generated expressions, environments and programs, and the property itself (folded value = CPython value; firmware observations = CPython observations) is evaluated on the real artefacts for every generated case inside the guard.",
     "level_note": "Trusted: Coq kernel, the reference semantics Lang/PySem.v (validated against CPython by harness/pysem_check.py), translator harness/gen/safecasts.py, extraction, OCaml driver, the mock Arduino core + g++ as 'device', CPython 3.12 as 'what Python means'. The theorems are about the models; the correspondence bounds their distance from parser.py. Floats are exact rationals in the model: value comparisons are made only where every intermediate float is a binary64 value (measured per case).",
     "design_ref": "DESIGN.md section 4 C03",
@@ -712,6 +713,8 @@ class ProgGen:
                         self.pending = (self.pending or []) + [pend]
                         env[lv] = ("K", int(pend[2]))
                         self.taint.discard(lv)
+                    if rng.random() < 0.2:
+                        return ("for", lv, a[0], rng.choice([0, 1, 2, 2, 3]))     # a literal count: for x in range(2)
                     return ("for", lv, a[0])
                 finally:
                     self.forbid.pop()
@@ -1030,14 +1033,22 @@ def gen_def_program(rng, guarded=True):
                 return [("assign", "vx", rng.choice([f"{q} + 'x'", f"{q}", repr(rng.choice(STRS))])), ("len", "vx")]
             if r < 0.92 and ip:
                 return [("assign", "vy", f"{rng.choice(ip)} + {rng.randint(0, 3)}"), ("val", "vy")]
+            if r < 0.97:
+                # locals holding constants that differ, swapped (temporaries inside a function body), then folded
+                a, b = rng.sample(STRS, 2)
+                out = [("assign", "vx", repr(a)), ("assign", "vz", repr(b)), ("tuple", ["vx", "vz"], ["vz", "vx"]), ("len", "vx"), ("len", "vz")]
+                if sp and rng.random() < 0.5:
+                    q = rng.choice(sp)
+                    out += [("tuple", ["vx", "vy"], [f"{q} + 'x'", "len(vx)"]), ("val", "vy"), ("len", "vx")]
+                return out
         return [("val", rng.choice(pn))]
     body = []
     for _ in range(rng.randint(2, 4)):
         if rng.random() < 0.2:
             a = simple()
             b = simple() if rng.random() < 0.5 else []
-            a = [st for st in a if st[0] != "assign"] or [("val", pn[0])]
-            b = [st for st in b if st[0] != "assign"]
+            a = [st for st in a if st[0] not in ("assign", "tuple")] or [("val", pn[0])]
+            b = [st for st in b if st[0] not in ("assign", "tuple")]
             a = [st for st in a if st[1] not in LOCAL_N] or [("val", pn[0])]
             b = [st for st in b if st[1] not in LOCAL_N]
             body.append(("if", a, b))
@@ -1184,9 +1195,17 @@ def render_prog(p, sfx, header=True):
             elif k == "len":
                 lines.append(f"{pad}mon.write(len({rn(s[1])}))")
             elif k == "flash":
-                lines.append(f"{pad}led.flash_pattern({rn(s[1])}, 3)")
+                # the spelling is a function of the statement and its position in the block only (the same in every rendering)
+                v = zlib.crc32(repr((s, len(lines) % 7)).encode()) % 10
+                x = rn(s[1])
+                lines.append(f"{pad}led.flash_pattern(pattern={x}, delay_ms=3)" if v == 0 else
+                             f"{pad}led.flash_pattern({x}, delay_ms=3)" if v == 1 else f"{pad}led.flash_pattern({x}, 3)")
             elif k == "glyph":
-                lines.append(f"{pad}lcd.glyph(0, [{', '.join(rn(x) for x in s[1])}])")
+                v = zlib.crc32(repr((s, len(lines) % 7)).encode()) % 10
+                rows = ", ".join(rn(x) for x in s[1])
+                bm = f"({rows})" if v in (2, 3) and len(s[1]) > 1 else f"[{rows}]"     # a tuple literal is a bitmap too
+                lines.append(f"{pad}lcd.glyph(slot=0, bitmap={bm})" if v in (0, 2) else
+                             f"{pad}lcd.glyph(0, bitmap={bm})" if v == 1 else f"{pad}lcd.glyph(0, {bm})")
             elif k == "tuple":
                 lines.append(f"{pad}{', '.join(rn(x) for x in s[1])} = {', '.join(rn(x) for x in s[2])}")
             elif k == "val":
@@ -1230,6 +1249,9 @@ def render_prog(p, sfx, header=True):
                 lines.append(f"{pad}while {kk} < {n}:")
                 block(s[1], lvl + 1)
                 lines.append(f"{pad}    {kk} = {kk} + 1")
+            elif k == "for" and len(s) > 3:
+                lines.append(f"{pad}for {rn(s[1])} in range({s[3]}):")
+                block(s[2], lvl + 1)
             elif k == "for":
                 cid[0] += 1
                 n = f"n{cid[0]}_{sfx}"
@@ -1274,6 +1296,10 @@ def walk_oracle(p, rng, budget=60):
                 d = rng.choice([0, 1])
                 orc.append(d); dr.append(d)
                 block(s[1] if d else s[2])
+            elif s[0] == "for" and len(s) > 3:
+                orc.append(s[3])
+                for _ in range(s[3]):
+                    block(s[2])
             elif s[0] in ("while", "for"):
                 k = rng.choice([0, 1, 1, 2, 3])
                 orc.append(k); ar.append(k)
@@ -1474,6 +1500,26 @@ WITNESSES = {
     "F-C03-unary-plus-identity": {
         "prog": [("assign", "vs", "f\"{+True}\""), ("len", "vs")], "dr": [], "ar": []},
 }
+
+
+def has_rhs_len(p):
+    for st in p:
+        k = st[0]
+        if k in ("assign", "append", "remove") and "len(" in st[2]:
+            return True
+        if k == "aug" and "len(" in st[3]:
+            return True
+        if k == "tuple" and any("len(" in e for e in st[2]):
+            return True
+        if k == "if" and (has_rhs_len(st[1]) or has_rhs_len(st[2])):
+            return True
+        if k in ("while", "main") and has_rhs_len(st[1]):
+            return True
+        if k == "for" and has_rhs_len(st[2]):
+            return True
+        if k == "def" and has_rhs_len(st[3]):
+            return True
+    return False
 
 
 def has_tuple(p):
@@ -1705,6 +1751,10 @@ def layer_b(ctx, stats):
                             stats["tie:py-equal"] += 1
                     if mf is not None and has_collision(p):
                         stats["tie:fw-skipped (loop variable named like a module variable)"] += 1
+                    elif mf is not None and not (mfresh or mflow) and has_rhs_len(p):
+                        # the model keeps right-hand sides symbolic; the real translation folds len(name) inside them: the
+                        # two coincide only where the environment is right (inside the guards, where lens_agree holds)
+                        stats["tie:fw-skipped (outside both guards, len(name) inside a right-hand side)"] += 1
                     elif mf is not None:
                         if mf != r["fw"]:
                             ctx.disagree("firmware outputs of the model differ from the real firmware", body, mf, r["fw"])
@@ -1775,7 +1825,7 @@ def delete_paths(p, paths):
             elif st[0] in ("while", "main"):
                 st = (st[0], rec(st[1], pa + (1,)))
             elif st[0] == "for":
-                st = (st[0], st[1], rec(st[2], pa + (2,)))
+                st = (st[0], st[1], rec(st[2], pa + (2,))) + tuple(st[3:])
             out.append(st)
         return out
 
@@ -1857,15 +1907,19 @@ def run(ctx: C.Ctx):
         "distinct_nontrivial": d_a + d_b,
         "programs": n_b,
         "sketches_compiled": n_sk,
-        "rule": "A: boundary expressions (every node kind _eval_const looks at, each operator with int/float/bool/str operands, error sources, hostile forms) x 3-5 environments (known int/float/bool/str/list/tuple, a marker, an unbound name), then seeded random expressions (harness/pyast_wire.gen_expr, depth 1-4) - each through the extracted model and the real _eval_const/_expr_has_name/_to_c_expr, a sample also through parse() at the blink/backlight/glyph/sleep call sites with the environment set up by assignments; non-trivial (A) = distinct (expression, environment) on which the real evaluator returned a value inside the guard and the CPython comparison ran. B: seeded programs (assign / augmented assign / run-time read / append / remove / len(name) / flash_pattern(name) / lcd.glyph(0, [rows]) / mon.write(name) = the run-time value of a variable; at module level a 'retune' pattern: a constant is re-assigned and then used in the FIRST assignment of another module-level name, which is then printed - the static-initialiser vs run-time-assignment split; a fifth of the programs additionally use tuple assignment, oracle only) under if, while, for and - every fourth program - the sketch's main loop `while True:` run 1-3 passes; 80 % generated inside the guard; every second guarded program is generated for the FLOW guard: tracked constants are re-assigned / appended inside branches and loop bodies, if / elif / else chains of 1-3 branches where 60 % of the branches with later siblings re-assign a tracked constant and the later siblings fold it (len / glyph row) from the snapshot, loop bodies that write tracked constants nothing folds, for-loop variables named like a tracked module constant followed by a re-assignment with a probe (a string formatted from the binder, and its length) in the body; a further quarter of the programs define a function whose formal arguments are mostly named like tracked module constants of the same type, with len(argument) / glyph / flash_pattern / len(module constant) / locals in the body, module statements between the def and 1-2 calls (some re-assigning a constant the body folds), arguments that differ from the same-named constants) with one seeded execution path each (branches taken or not, loops 0-3 times): real parse() IR vs model residual (folded constants; which module-level first assignments became static initialisers and which stayed in setup()), CPython run vs model reference semantics, firmware run (batched sketches, g++, mock core) vs model firmware outputs; non-trivial (B) = distinct program inside the guard that ran on both sides with >= 2 observations.",
+        "rule": "(round 3 additions - A: sensor-model-shaped expressions ('HC-SR04' spellings, concatenations, names bound to model strings) through Ultrasonic(7, 8, model=<e>) and every sampled expression through Led(<e>): the folded model / pin is what the argument names at run time. B: tuple assignments at every depth and in every program family (swaps and 3-rotations of int / str names whose tracked constants differ, `x, y = <new string>, len(x)` and three-target forms whose last right-hand side reads both earlier targets, pairs of expressions where the second reads the first target; all-new pairs at module level), each followed by the fold sites that read the targets (len(target), a glyph bitmap built from the targets, append(target) + flash_pattern); flash_pattern(name) followed by append / remove of constants to the same list - in the same block, in a taken-or-not branch, in a for body - and a second flash_pattern; try / except blocks (sent to the model as `if <true>: body else: handler`; the head of every handler prints a marker so that a CPython run that enters a handler is discarded); removes that prefer a duplicated value; a family of small scenario programs built around one such fold site each; a failing program is shrunk by deleting simple statements (re-checked against the guard of the extracted model) before it is reported.) A: boundary expressions (every node kind _eval_const looks at, each operator with int/float/bool/str operands, error sources, hostile forms) x 3-5 environments (known int/float/bool/str/list/tuple, a marker, an unbound name), then seeded random expressions (harness/pyast_wire.gen_expr, depth 1-4) - each through the extracted model and the real _eval_const/_expr_has_name/_to_c_expr, a sample also through parse() at the blink/backlight/glyph/sleep call sites with the environment set up by assignments; non-trivial (A) = distinct (expression, environment) on which the real evaluator returned a value inside the guard and the CPython comparison ran. B: seeded programs (assign / augmented assign / run-time read / append / remove / len(name) / flash_pattern(name) / lcd.glyph(0, [rows]) / mon.write(name) = the run-time value of a variable; at module level a 'retune' pattern: a constant is re-assigned and then used in the FIRST assignment of another module-level name, which is then printed - the static-initialiser vs run-time-assignment split; a fifth of the programs additionally use tuple assignment, oracle only) under if, while, for and - every fourth program - the sketch's main loop `while True:` run 1-3 passes; 80 % generated inside the guard; every second guarded program is generated for the FLOW guard: tracked constants are re-assigned / appended inside branches and loop bodies, if / elif / else chains of 1-3 branches where 60 % of the branches with later siblings re-assign a tracked constant and the later siblings fold it (len / glyph row) from the snapshot, loop bodies that write tracked constants nothing folds, for-loop variables named like a tracked module constant followed by a re-assignment with a probe (a string formatted from the binder, and its length) in the body; a further quarter of the programs define a function whose formal arguments are mostly named like tracked module constants of the same type, with len(argument) / glyph / flash_pattern / len(module constant) / locals in the body, module statements between the def and 1-2 calls (some re-assigning a constant the body folds), arguments that differ from the same-named constants) with one seeded execution path each (branches taken or not, loops 0-3 times): real parse() IR vs model residual (folded constants; which module-level first assignments became static initialisers and which stayed in setup()), CPython run vs model reference semantics, firmware run (batched sketches, g++, mock core) vs model firmware outputs; non-trivial (B) = distinct program inside the guard that ran on both sides with >= 2 observations.",
         "samples": [{"expr": x} for x in s_a] + [{"program": x} for x in s_b],
         "distribution": dict(sorted(stats.items())),
         "guard": "B (wider, this round): flow_ok (ConstFlow.cblock's flag) - at every fold site the transpiler baked in exactly what the flow-sensitive ghost environment justifies (branches start from the bindings before the if with a private store; names written in a branch / loop body are unknown afterwards and inside the loop) - and def_ok for every call of a defined function (body justified by the def-time bindings no module statement before the call writes, formal arguments unknown); a program goes to the oracle when the extracted model says is_fresh or flow_ok, the hoisting side conditions hold and every call is inside def_ok. A: in_guard (no one-argument max/min; unary plus only on int/float operands - decided by CPython in the oracle), no variable named like a builtin of _SAFE_NAME_REFERENCES. B: is_fresh (ConstEnv.tblock's ghost flag): no assignment / append / remove to a name with a known transpile-time value inside an if / while / for body, remove only of a known value that is present, append only of a known value - outside: findings F-C03-*; split_ok = is_fresh and the hoisting side conditions of C03_global_split_partial (always true for generated programs: no for-loop variable is assigned elsewhere)",
         "unmodelled": ["IEEE specials, float results that are not exactly representable are compared only CPython-vs-implementation (exact), not against the rational model",
-                       "sensor model names (ast.literal_eval fallback), pin folding in device constructors (same _resolve pattern; only blink/backlight/glyph/sleep sites are run)",
+                       "sensor model names and Led pins are oracle-only fold sites (real parse() vs CPython value; no Gallina function for the model-name canonicalisation); other device constructors' pins follow the same _resolve pattern and are not run",
                        "list aliasing between variables (b = a), flash_pattern / glyph with an inline literal containing names (ast.literal_eval path) in the environment model",
-                       "tuple assignment is not in the Coq model: programs using it (module level, all-new or all-declared int / str names) only go through the firmware-vs-CPython oracle",
-                       "try / except bodies (child contexts like if branches), functions that call functions / recursion / return values feeding fold sites / list arguments (the def model is: call-free body, str / int arguments, module-level def and calls), names promoted out of blocks are not listed among the model's globals",
+                       "len(name) INSIDE a right-hand side / append / remove argument is folded by the real translation (_to_c_expr); the model keeps those expressions symbolic and instead makes each such sub-term a fold site of the flow guard (ConstFlow.lens_agree; inside is_fresh the environment is right by the simulation invariant) - the model-vs-real firmware tie is skipped for programs outside both guards that contain one",
+                       "tuple assignment: the model has the temporaries form (Lang/ConstTuple.v, proved simultaneous); where all targets are new at module level the real transpiler declares the names one by one without temporaries and the harness sends single assignments (tie: globals / top-level assignments / folded constants); tuple assignment of list VALUES (aliasing) and targets that are partly new at module level (setup()-local declarations: C01/C06) are not generated",
+                       "try / except: modelled as a two-way branch whose body is taken (a body that raises nothing); handlers that actually run (exceptions at run time), finally / else clauses, typed handlers are outside",
+                       "IR nodes other than LedFlashPattern that hold lists (LCDGlyph.bitmap is built entry by entry from a freshly evaluated list and cannot alias the environment: names bound to lists do not evaluate) - covered by reading the real IR after parse() in the correspondence, not by Lang/ConstNodes.v",
+                       "statements the parser drops without translating (p[0] = 7, p.pop(), p.insert(), p.reverse(), p.clear(), p.extend(): C07's silent-skip findings) leave the tracked list and the firmware's list equally unchanged - never generated here",
+                       "functions that call functions / recursion / return values feeding fold sites / list arguments (the def model is: call-free body, str / int arguments, module-level def and calls), names promoted out of blocks are not listed among the model's globals",
                        "the module-level hoisting theorem (C03_global_split_partial) is proved under is_fresh; for programs that are only inside the flow guard the hoisting half is covered by the correspondence (globals / top-level assignments) and the firmware oracle, not by a theorem",
                        "a for-loop variable named like a module variable that is assigned inside the loop body or read after the loop without re-assignment (C++ scopes the loop variable: C01's business) - generated only with a re-assignment after the loop; the model-vs-firmware tie is skipped for those programs",
                        "str(float) / float(str) / complex results: OutOfModel in PySem (skipped, counted)"],
